@@ -11,7 +11,13 @@ def main():
     os.environ['VF_NATIVE'] = '1'
     res = {'ok': None}
     try:
-        args = json.loads(args_json)
+        history = []
+        if args_json.startswith('@'):
+            with open(args_json[1:]) as f:
+                doc = json.load(f)
+            args, history = doc['args'], doc.get('history', [])
+        else:
+            args = json.loads(args_json)
         if funcname == '__setup__':
             try:
                 importlib.import_module(modname)
@@ -29,6 +35,12 @@ def main():
         mod = importlib.import_module(modname)
         from vfw import hs
         fn = getattr(mod, funcname)
+        for h in history:
+            # earlier calls on the same objects, in the order the worker made them (history-dependent defects)
+            try:
+                fn(*h)
+            except Exception:
+                pass
         try:
             ok = fn(*args)
             res['ok'] = bool(ok)
